@@ -14,7 +14,7 @@ Ideal(e) == LET a == e.a IN
     [] e.f = "DAY"      -> Civil(DateNorm(a[1], a[2], a[3])).d
     [] e.f = "EDATE"    -> EDate(a[1], a[2])
     [] e.f = "EOMONTH"  -> EoMonth(a[1], a[2])
-    [] e.f = "DATEDIF"  -> IF e.u # "D" /\ AmbiguousMonths(a[1], a[2]) THEN NA ELSE DateDif(e.u, a[1], a[2])
+    [] e.f = "DATEDIF"  -> DateDif(e.u, a[1], a[2])
     [] e.f = "NWD"      -> NetworkDays(a[1], a[2], {e.h[i] : i \in 1..Len(e.h)})
 Init == l = 1
 Step == /\ l <= Len(Log)
